@@ -136,8 +136,8 @@ type tree interface {
 
 type tree3 struct{ t *model3d.CoordTree }
 
-func (t tree3) empty() bool               { return t.t.Empty() }
-func (t tree3) leaf() bool                { return t.t.Leaf() }
+func (t tree3) empty() bool                { return t.t.Empty() }
+func (t tree3) leaf() bool                 { return t.t.Leaf() }
 func (t tree3) contains(p [3]float64) bool { return t.t.Contains(xyz(p)) }
 func (t tree3) nearest(p [3]float64) [3]float64 {
 	c := t.t.NearestNeighbor(xyz(p))
@@ -166,8 +166,8 @@ type tree2 struct{ t *model2d.CoordTree }
 
 func c2(p [3]float64) model2d.Coord { return model2d.XY(p[0], p[1]) }
 
-func (t tree2) empty() bool               { return t.t.Empty() }
-func (t tree2) leaf() bool                { return t.t.Leaf() }
+func (t tree2) empty() bool                { return t.t.Empty() }
+func (t tree2) leaf() bool                 { return t.t.Leaf() }
 func (t tree2) contains(p [3]float64) bool { return t.t.Contains(c2(p)) }
 func (t tree2) nearest(p [3]float64) [3]float64 {
 	c := t.t.NearestNeighbor(c2(p))
